@@ -59,6 +59,9 @@ CHECKS = {
  "C07": dict(cat="exploration", tech="runtime monitoring against reference automata: generated abstract reader/writer base classes (C++ compiled with stub subclasses, Python subclassed by reflection) driven with every reference-valid call prefix extended by every action (all (state, action) pairs for shapes <= 3/4 steps) plus random walks",
    text="Exhaustive over (reference state, action) pairs for all protocol shapes up to 3 steps (4 in thorough) with bounded stream visits, in C++ and Python; one known finding (uint8_t state with > 127 steps).",
    note="Trusted: reference automata written from docs/{cpp,python}/language.md with stated don't-care zones (use after close, re-reading an exhausted stream after an empty final batch, Close() while the end is pending); MATLAB not executable.", ref="§5 C07"),
+ "C05": dict(cat="exploration", tech="runtime monitoring with a reference conversion interpreter: seeded version chains accepted by yardl, newest generated C++ (with compatibility serializers, plain + ASan) reading every old version and writing every old version, old versions' own generated readers fed the result; reference decode + documented-conversion oracle",
+   text="Held on the chains explored (after two repairs found by this check). Restricted to edit classes with crisp data semantics; union case changes, number<->string text and out-of-range numerics are not evaluated.",
+   note="Trusted: reference conversion written from docs/cpp/evolution.md; reference codec; each site edited once per chain.", ref="§5 C05"),
 }
 NA_REASON = "check not built yet in this session (work in progress, see DESIGN.md §5 for the planned monitor)"
 
